@@ -8,6 +8,7 @@ func ruleC08(prog *Program, rep *Report) {
 	ruleReturnAlias(prog, rep, "C08")
 	ruleGlobals(prog, rep)
 	ruleGlobalWrite(prog, rep)
+	rulePutOnce(prog, rep, 10, "oj", "sen")
 	rulePoolNew(prog, rep, append(append([]feSpec{}, jsonFrontEnds...), senFrontEnds...)...)
 	ruleGlobalReturn(prog, rep, 10, "pretty", "oj", "sen", "alt", "gen", "jp", "asm", "")
 	rulePreRegister(prog, rep)
